@@ -199,6 +199,17 @@ def strata(tier):
                    "path": PC.mkpath([{"p": "mol"}]), "arg_kind": "pathlike-literal"}
         yield {"term": PC.L("value", "in_", [lit, 7]), "cont": [lit, 7, 3], "doc": {"x": lit}, "path": PC.mkpath([{"p": "mol"}]),
                "arg_kind": "pathlike-literal"}
+    # the same (equal) literal at two depths of one argument / in two arguments / in two leaves
+    for d in ({"path": [1]}, {"Path.length": [2]}, {"a": 1}, [1, "x"], {"path": {"path": 1}}):
+        for args in ([[d, [d]]], [[[d], d]], [{"k": d, "j": [[d]]}], [[d, d, [[d]]]], [d], [[d, {"q": [d]}]]):
+            for fn in ("equal_to", "in_", "not_equal_to"):
+                if fn == "in_" and type(args[0]) is not list:
+                    continue
+                tm = PC.L("value", fn, *args)
+                cont = [d, [d], args[0], 3]
+                yield {"term": tm, "cont": cont, "doc": {"x": d, "y": args[0]}, "path": PC.mkpath([{"p": "mol"}]), "arg_kind": "repeated-literal"}
+                yield {"term": {"c": "or", "a": tm, "b": PC.L("value", "equal_to", d)}, "cont": cont, "doc": {"x": d, "y": args[0]},
+                       "path": PC.mkpath([{"p": "mol"}]), "arg_kind": "repeated-literal"}
     for j in range(150 if tier == "quick" else 600):
         rng = G.rng_for("C11-args", j)
         ak = ["path", "pathlike", "list", "mapping", "path"][j % 5]
@@ -315,6 +326,24 @@ def run(case, ctx):
     ok, j3 = call(c2.to_json_like)
     if not ok or canon(j3) != canon(j):
         ctx.violate(f"C11/not-idempotent/{key_tail}", f"second serialisation {j3!r} differs from the first {j!r}")
+    # the same condition built with every repeated (equal) container argument being ONE shared object
+    sh = {}
+    ok, c_al = call(build.cond_obj, t, sh)
+    if ok and sh.get("hits"):
+        ctx.count("aliased-container-arguments")
+        ok, j_al = call(c_al.to_json_like)
+        if not ok or canon(j_al) != cj:
+            ctx.violate(f"C11/aliased-arguments/{key_tail}", f"with equal container arguments being one shared object the condition "
+                        f"serialises as {j_al!r}, with separate equal objects as {j2!r}")
+    # history: the owner of a container argument changes it in place after the condition was serialised
+    t_mut, hit = _mutate_first_container_arg(t, c)
+    if hit:
+        ctx.count("history:argument-edited-after-serialising")
+        okf, fresh = call(lambda: build.cond_obj(t_mut).to_json_like())
+        okm, jm = call(c.to_json_like)
+        if okf != okm or (okf and canon(fresh) != canon(jm)):
+            ctx.violate(f"C11/stale-after-argument-edit/{key_tail}", f"after a container argument was edited in place the condition "
+                        f"serialises as {jm!r}; a condition built with the edited argument gives {fresh!r}")
     for name, detail in mon.CONTRACTS.take():
         ctx.violate(f"C11/contract:{name}", detail)
     for l in M.leaves(t):
@@ -325,6 +354,33 @@ def run(case, ctx):
     if ak not in ("scalar", "none", "as-is", "leaf") or t["c"] != "leaf":
         ctx.mark_nontrivial(repr(t))
         ctx.sample({"term": t, "json": j}, cap=5)
+
+
+def _leaf_objs(c):
+    ch = getattr(c, "children", None)
+    if ch is None:
+        return [c] if hasattr(c, "callable") else []
+    return [x for k in ch for x in _leaf_objs(k)]
+
+
+def _mutate_first_container_arg(t, c):
+    """edit in place the first plain list/dict positional argument held by a leaf of c; return the term describing the result"""
+    t2 = M.deep_copy(t)
+    lt, lo = M.leaves(t2), _leaf_objs(c)
+    if len(lt) != len(lo):
+        return t2, False
+    for term, obj in zip(lt, lo):
+        held = obj.callable.args
+        for i, a in enumerate(term.get("args", [])):
+            if type(a) in (list, dict) and "$" not in repr(a) and i < len(held) and type(held[i]) is type(a):
+                if type(a) is list:
+                    a.append("zz-added")
+                    held[i].append("zz-added")
+                else:
+                    a["zz-added"] = [0]
+                    held[i]["zz-added"] = [0]
+                return t2, True
+    return t2, False
 
 
 def _scribble(x):
